@@ -508,6 +508,20 @@ def check_formula(case, ctx):
         ctx.fail('C14.formula/counts', '%r -> %r expected %r' % (text, dict(got), expect))
     if any(not isinstance(v, int) for v in got.values()):
         ctx.fail('C14.formula/non-integer-count', '%r -> %r' % (text, dict(got)))
+    # the caller owns the result: editing it must not change what the next parse of the same text returns
+    try:
+        for k_ in list(got):
+            got[k_] += 7
+        got['Zz'] = 1
+    except TypeError:
+        pass        # an immutable mapping cannot be edited at all
+    again = pmutt.parse_formula(text)
+    if dict(again) != expect:
+        ctx.fail('C14.formula/parse-depends-on-history', '%r parsed again after the caller edited the first result -> %r '
+                 'expected %r' % (text, dict(again), expect))
+    if all(s_ in pmutt.constants.atomic_weight for s_ in expect):     # (the weight table itself is C12's business)
+        ctx.close('C14.formula/molecular-weight-after-edit', pmutt.get_molecular_weight(text),
+                  sum(n_ * pmutt.constants.atomic_weight[s_] for s_, n_ in expect.items()), rtol=1e-12)
 
 
 CLAUSES = [
@@ -533,7 +547,7 @@ CLAUSES = [
            'rational decision vs check_element_balance. Non-trivial = fractional coefficient or TS'),
     Clause('C14.formula', formula_case(), check_formula, 1500, 10000,
            '1-9 (symbol, count) tokens from all one/two-letter element symbols, counts omitted or 1-999, repeats; '
-           'reference = the token list itself'),
+           'reference = the token list itself; the result is edited and the text parsed again'),
 ]
 # coverage-guided campaigns of the thorough tier: (clause, executions per worker, workers)
 FUZZ = [('C14.parse', 15000, 3), ('C14.roundtrip', 8000, 2)]
